@@ -7,7 +7,27 @@ import json
 def sig_of(rej, scn):
     bad = rej.get("bad") or []
     fields = sorted(bad[3]) if len(bad) == 4 else []
-    return "C01:%s:%s" % (rej.get("why"), "+".join(fields))
+    why = rej.get("why")
+    if why == "cursor":         # which part of the request is not met, and whether after foreign output
+        return "C01:cursor:%s" % rej.get("cur", "")
+    return "C01:%s:%s" % (why, "+".join(fields) if why == "cells" else "")
+
+
+def _plain(app):
+    """every column of the frame holds a cell of its own (no glyph over several columns, none that lost one):
+    each cell is then demanded exactly"""
+    return all(len(cell) >= 11 and cell[9] == x + 1 for row in app for x, cell in enumerate(row))
+
+
+def _last_frame_plain(mut):
+    """apply a corruption of selfmut only to scenarios whose last frame is plain and which no foreign
+    output (that wipes the screen like a scramble) precedes"""
+    def f(evs):
+        frames = [e for e in evs if e.get("ev") == "frame" and e.get("app")]
+        if not frames or not _plain(frames[-1]["app"]) or any(e.get("ev") == "foreign" for e in evs):
+            return None
+        return mut(evs)
+    return f
 
 
 def main(c):
@@ -29,19 +49,27 @@ def main(c):
             ok, _ = c.model_check(specs, "MC_Render.tla", cfg, workers=16)
             if not ok:
                 c.notes.append("MODEL: Render model violates FrameAlwaysOK under %s (candidate; verdicts come from trace validation)" % cfg)
+        # the same renderer under an application that builds its screen by single cell writes in any order (the
+        # record then says which write came last in each column): every history of 4 / 5-6 writes and frames
+        for cfg in (["MC_RenderSet_fixed_q.cfg"] if c.tier == "quick" else ["MC_RenderSet_fixed.cfg", "MC_RenderSet_fixed_deep.cfg"]):
+            ok, _ = c.model_check(specs, "MC_RenderSet.tla", cfg, workers=16)
+            if not ok:
+                c.notes.append("MODEL: Render model violates FrameAlwaysOK under %s (candidate; verdicts come from trace validation)" % cfg)
         if c.tier != "quick":
             refuted = 0
-            for cfg in ("MC_Render_bug_hidden.cfg", "MC_Render_bug_link.cfg", "MC_Render_bug_cursor.cfg"):
-                ok, _ = c.model_check(specs, "MC_Render.tla", cfg, workers=8, expect_violation=True)
+            for tla, cfg in (("MC_Render.tla", "MC_Render_bug_hidden.cfg"), ("MC_Render.tla", "MC_Render_bug_link.cfg"),
+                             ("MC_Render.tla", "MC_Render_bug_cursor.cfg"), ("MC_Render.tla", "MC_Render_bug_rehide.cfg"),
+                             ("MC_RenderSet.tla", "MC_RenderSet_bug_store.cfg")):
+                ok, _ = c.model_check(specs, tla, cfg, workers=8, expect_violation=True)
                 refuted += 0 if ok else 1
             c.cov["as_found_render_models_refuted"] = refuted
     td = c.drive(drv, "c01", replay=c.replay)
     rejects, _ = c.validate_traces(specs, "RefTerm_Trace.tla", "RefTerm_Trace.cfg", td)
     if not c.replay:
         c.cov["binding_selftest"] = vselftest.run(c, specs, "RefTerm_Trace.tla", "RefTerm_Trace.cfg", td, {r["scn"] for r in rejects}, [
-            ("frame: glyph of cell (0,0)", selfmut.frame_glyph()),
+            ("frame: glyph of cell (0,0)", _last_frame_plain(selfmut.frame_glyph())),
             ("frame: cursor row", selfmut.frame_cursor),
-            ("stream: last glyph sent differs", selfmut.print_dropped),
+            ("stream: last glyph sent differs", _last_frame_plain(selfmut.print_dropped)),
 ])
     idx = c.load_index(td)
     c.count_distinct(idx)
